@@ -17,15 +17,15 @@ PROPS = {
     "C01": dict(modules=["Cvss.Props.C01", "Cvss.Props.C01v2", "Cvss.Props.C01v3", "Cvss.Props.C01v4"], ties=["Cvss.Model.SrcTie"], streams=["parse"]),
     "C02": dict(modules=["Cvss.Props.C02", "Cvss.Props.C02v2", "Cvss.Props.C02v3", "Cvss.Props.C02v4"], ties=["Cvss.Model.SrcTie"], streams=["parse", "obj"]),
     "C03": dict(modules=[], ties=[], streams=["score"]),
-    "C04": dict(modules=[], ties=[], streams=["score"]),
-    "C05": dict(modules=[], ties=[], streams=["score"]),
+    "C04": dict(modules=["Cvss.Props.C04", "Cvss.Proofs.Score4Main", "Cvss.Proofs.Score4TailAll", "Cvss.Proofs.Score4Groups", "Cvss.Proofs.Score4Loops", "Cvss.Proofs.Score4MV", "Cvss.Proofs.Score4Shape", "Cvss.Spec.V4Lemmas", "Cvss.Proofs.Score4Tail00", "Cvss.Proofs.Score4Tail01", "Cvss.Proofs.Score4Tail02", "Cvss.Proofs.Score4Tail03", "Cvss.Proofs.Score4Tail04", "Cvss.Proofs.Score4Tail05", "Cvss.Proofs.Score4Tail06", "Cvss.Proofs.Score4Tail07", "Cvss.Proofs.Score4Tail08", "Cvss.Proofs.Score4Tail09", "Cvss.Proofs.Score4Tail10", "Cvss.Proofs.Score4Tail11", "Cvss.Proofs.Score4Tail12", "Cvss.Proofs.Score4Tail13", "Cvss.Proofs.Score4Tail14", "Cvss.Proofs.Score4Tail15", "Cvss.Proofs.Score4Tail16", "Cvss.Proofs.Score4Tail17"], ties=[], streams=["score"]),
+    "C05": dict(modules=["Cvss.Props.C05", "Cvss.Proofs.Score2Base", "Cvss.Proofs.Score2Defs", "Cvss.Proofs.Score2F", "Cvss.Proofs.Score2Main", "Cvss.Proofs.Score2Mono", "Cvss.Proofs.Score2Near", "Cvss.Proofs.Score2Ok", "Cvss.Proofs.Score2RB00", "Cvss.Proofs.Score2RB01", "Cvss.Proofs.Score2RB02", "Cvss.Proofs.Score2RB10", "Cvss.Proofs.Score2RB11", "Cvss.Proofs.Score2RB12", "Cvss.Proofs.Score2RB20", "Cvss.Proofs.Score2RB21", "Cvss.Proofs.Score2RB22", "Cvss.Proofs.Score2T20", "Cvss.Proofs.Score2T21", "Cvss.Proofs.Score2T22", "Cvss.Proofs.Score2T23", "Cvss.Proofs.Score2T2Mono", "Cvss.Proofs.Score2Tables", "Cvss.Proofs.Score2Wf"], ties=[], streams=["score"]),
     "C06": dict(modules=["Cvss.Props.C06", "Cvss.Props.C06v2", "Cvss.Props.C06v3", "Cvss.Props.C06v4"], ties=["Cvss.Model.SrcTie"], streams=["parse"]),
     "C07": dict(modules=["Cvss.Props.C07", "Cvss.Props.C07v4"], ties=[], streams=["obj"]),
     "C08": dict(modules=["Cvss.Props.C08", "Cvss.Props.C08v2", "Cvss.Props.C08v3", "Cvss.Props.C08v4"], ties=["Cvss.Model.SrcTie"], streams=["parse", "obj"]),
     "C09": dict(modules=["Cvss.Props.C09", "Cvss.Props.C09v4", "Cvss.Props.C09b"], ties=[], streams=["obj", "parse"]),
-    "C10": dict(modules=[], ties=[], streams=["score"]),
-    "C11": dict(modules=[], ties=[], streams=["score"]),
-    "C12": dict(modules=[], ties=[], streams=["score"]),
+    "C10": dict(modules=["Cvss.Props.C10"], ties=[], streams=["score"]),
+    "C11": dict(modules=["Cvss.Props.C11v2"], ties=[], streams=["score"]),
+    "C12": dict(modules=["Cvss.Props.C12v2"], ties=[], streams=["score"]),
     "C13": dict(modules=["Cvss.Props.C13", "Cvss.Props.C13b", "Cvss.Props.C13v2", "Cvss.Props.C13v3", "Cvss.Props.C13v4"], ties=["Cvss.Model.SrcTie"], streams=["parse"]),
     "C14": dict(modules=["Cvss.Props.C14"], ties=["Cvss.Model.SrcTie"], streams=["race", "obj"]),
     "C15": dict(modules=["Cvss.Props.C15"], ties=[], streams=["rating"]),
@@ -122,7 +122,33 @@ LEVEL_TEXT["C18"] = _lt("proof",
     _PARSER_NOTE, _TECH)
 for pid in ["C10", "C11", "C12"]:
     LEVEL_TEXT[pid] = _lt("exploration", _PENDING, _NOTE, "differential testing of the implementation against an executable Lean Spec and model (proofs pending)")
-for pid in ["C03", "C04", "C05"]:
+_SCORE_NOTE = ("trusted: Lean kernel (decide +kernel over complete finite tables, no native_decide); Base/F64.lean soft-float (validated on >1.5e6 hardware operations by the "
+               "float stream); translator for the scoring functions (score stream: bit-exact comparison of every score on all base classes and sampled full objects); "
+               "the Spec transcription of the equations/tables (Spec/V2, V3, V4; v4 lookup table from an independent transcription); no FMA contraction on this target")
+LEVEL_TEXT["C04"] = _lt("proof",
+    "Theorem Props.C04: for EVERY well-formed v4.0 object (2.67e17) the regenerated Score is IEEE-equal to the double nearest Spec.V4.scoreK/10, where scoreK is the exact-rational "
+    "section 8.2 algorithm rounded half-up (0 when the six effective impacts are N). Proof: Score_core = named pieces of the generated text (rfl); macroVector_core = Spec EQ1-EQ6 by "
+    "enumeration of raw code tuples; the generated loop nest selects a dominating highest-severity vector (generic forRange lemmas); float tail checked by the kernel on all 270 "
+    "MacroVectors x all 52,650 reachable distance tuples; Spec self-consistency (maxes = Pareto maxima, depths = max distance, equal distance sums) in Spec/V4Lemmas. "
+    "Holds only with the two fix: commits (8fa0a17, a3d41a1); it fails again if either defect returns.", _SCORE_NOTE, _TECH)
+LEVEL_TEXT["C05"] = _lt("proof",
+    "Theorems C05.base/temporal/environmental_conforms: for EVERY well-formed v2.0 object (139,968,000) each score is IEEE-equal to the double nearest k/10 for a tenth k that is a "
+    "conforming rounding of the guide 3.2 equations over exact rationals (relation Near: either neighbour at an exact half-way tie; chained roundings as relations TemporalOK/EnvOK), "
+    "*_unique: THE rounded value when no tie occurs; impact/exploitability within 1e-12 of the exact value; O1_*: exactly when -0.0 is returned. Kernel enumeration of the factored "
+    "domains (729 base, 12,100 temporal steps, 46,656 recomputed bases, 3,630 final steps) + shape lemmas by unfolding the generated bodies.", _SCORE_NOTE, _TECH)
+LEVEL_TEXT["C10"] = _lt("proof",
+    "Theorems C10.v30/v31_env/base/temporal and C10.v40_score: for every pair of well-formed objects with equal effective key (Spec/Effective.lean: Modified if defined else base; "
+    "X = documented default; no supplemental metric) the regenerated scores are EQUAL terms; corollaries: filling an X with a copy of the base value, changing an overridden base metric, "
+    "replacing X by its default, any supplemental Set (v4), any environmental Set (v3 Base/Temporal) leave the score unchanged. Structural: the generated cores use each pair only "
+    "through mod_ and X only through the default's weight (small decide tables on the generated weight functions); no float evaluation.",
+    "trusted: Lean kernel; translator for the scoring functions and Get/Set (score stream K operations compare scores of 1.5e3/6e4 equal-key pairs per version)", _TECH)
+for pid in ["C11", "C12"]:
+    LEVEL_TEXT[pid] = _lt("proof",
+        "PARTIAL (being extended): v2.0 part proved - C11v2: Base/Temporal scores are finite, equal to the double nearest k/10 with 0<=k<=100 (Environmental: -2<=k<=100, the documented "
+        "exception), for every well-formed object; C12v2: Base and Temporal scores are monotone in every base/temporal metric along the Spec severity order (Spec/OrderV2.lean), by kernel "
+        "enumeration on the float model. v3.x/v4.0 parts: decided by the Spec-oracle differential (F operations: nearest-k/10 + Rating accepts; M operations: every ordered value pair of "
+        "one metric on random objects, judged with Spec/Effective.lean ranks) until their theorems are merged.", _SCORE_NOTE, _TECH + " (v2.0); differential oracle (v3.x, v4.0)")
+for pid in ["C03"]:
     LEVEL_TEXT[pid] = _lt("exploration", _PENDING, _NOTE, "differential testing of the implementation against an executable Lean Spec and model (proofs pending)")
 for pid in []:
     NOT_CLAIMED[pid] = "check under construction (Spec and theorems for this property are not merged yet); see DESIGN.md section 7"
